@@ -1,4 +1,5 @@
 import RCE.Proofs.SearchInfo
+import RCE.Proofs.SearchPvNonempty
 /-! # C14 — search progress reports are truthful and well-formed
 
 `Result.infos` are the `info` lines in the order printed (time / nps tokens are not modelled: they
@@ -26,8 +27,17 @@ theorem pv_legal (env : Env) (G : Game P M) (p : P) (maxDepth : Option Nat) (tt0
     ∀ i ∈ (search env G p maxDepth tt0).infos, LegalLine G p i.pv :=
   pv_legal' env G p maxDepth tt0 hk ht
 
+/-- every info line reported for a root that has a legal move carries a principal variation with at least one
+    move, and that first move is a legal move of the root — for every limit, stop point and monotone clock, whatever
+    the initial cache holds (no hypothesis about keys: the root's own entry was written by this very iteration) -/
+theorem pv_nonempty (env : Env) (G : Game P M) (p : P) (maxDepth : Option Nat) (tt0 : Table M)
+    (hc : MonoClock env) (hl : legalMovesOf G p ≠ []) (he : EvalBoundedFrom G p) (ht : TableScoresOK tt0) :
+    ∀ i ∈ (search env G p maxDepth tt0).infos, ∃ m rest, i.pv = m :: rest ∧ m ∈ legalMovesOf G p :=
+  RCE.Proofs.SearchPvNonempty.pv_nonempty' env G p maxDepth tt0 hc hl he ht
+
 end RCE.Props.C14
 
 #print axioms RCE.Props.C14.info_depths
 #print axioms RCE.Props.C14.depth_limit_complete
 #print axioms RCE.Props.C14.pv_legal
+#print axioms RCE.Props.C14.pv_nonempty
